@@ -31,6 +31,7 @@ class Session:
         self.tracing = False
         self.events = []
         self.failpoint = None
+        self.prop = None  # property id the running workload decides
         self.case = None  # description of the current generated case (for witnesses)
         self.case_keys = set()  # distinct non-trivial abstract keys (strings)
         self.all_keys = set()
